@@ -479,10 +479,7 @@ def _timeout_steps(ex):
     return list(getattr(ex, "timeouts", []))
 
 
-def explore_scenario(args):
-    sc, bound = args
-    patch()
-    res = Result()
+def _explorer(sc, bound, res):
     factory, checker = FACTORIES[sc["kind"]]
     make = factory(sc)
 
@@ -499,12 +496,42 @@ def explore_scenario(args):
             return
         checker(sc, ex, ctx, res, case)
 
-    E = sched.Explorer(make, check, bound, sched_kwargs())
+    return sched.Explorer(make, check, bound, sched_kwargs())
+
+
+def explore_scenario(args):
+    """whole scenario in one process (used by replay/debugging)"""
+    sc, bound = args
+    patch()
+    res = Result()
+    E = _explorer(sc, bound, res)
     E.explore([])
+    res.part(f"{sc['kind']}", scenarios=1, schedules=E.executions, steps=E.steps)
+    return res.compact()
+
+
+def stage1(args):
+    """expand the schedule tree of one scenario breadth-first until >= 24 open subtrees exist (or it is exhausted)"""
+    sc, bound = args
+    patch()
+    res = Result()
+    E = _explorer(sc, bound, res)
+    open_ = E.frontier(24)
     res.part(f"{sc['kind']}", scenarios=1, schedules=E.executions, steps=E.steps)
     if not res.samples:
         ex, ctx = E.run_one([])
         res.sample({"scenario": sc, "schedule": "default", "steps": ex.steps, "trace_head": [f"t{t}:{l}" for t, l in ex.trace[:14]]})
+    return res.compact(), open_
+
+
+def stage2(args):
+    sc, bound, prefixes = args
+    patch()
+    res = Result()
+    E = _explorer(sc, bound, res)
+    for p in prefixes:
+        E.explore(p)
+    res.part(f"{sc['kind']}", schedules=E.executions, steps=E.steps)
     return res.compact()
 
 
@@ -514,9 +541,14 @@ def run(tier, seed):
     scs = scenarios(tier)
     k = seed % len(scs)
     scs = scs[k:] + scs[:k]
-    for r in env.parallel(explore_scenario, scs):
+    tasks = []
+    for (sc, bound), (r, open_) in zip(scs, env.parallel(stage1, scs, pin=True)):
         res.merge(r)
-    res.part("scenarios", count=len(scs))
+        for i in range(0, len(open_), 2):
+            tasks.append((sc, bound, open_[i : i + 2]))
+    for r in env.parallel(stage2, tasks, pin=True):
+        res.merge(r)
+    res.part("scenarios", count=len(scs), subtree_tasks=len(tasks))
     return res
 
 
